@@ -314,7 +314,7 @@ theorem addQuestionBody_item (qn : WName) (qt qc : Nat) (s s' : State) (hw : WIn
   have hs := writeUnhintedName_spec qn _ wA hwf
   have hf := frame_writeUnhintedName qn { s with gCtx := .qname }
   rw [hB] at hs hf
-  obtain ⟨_, _, _, _, _, ⟨ls, hrd, hmtB⟩, hck⟩ := hs.ok p rfl
+  obtain ⟨_, _, _, _, _, ⟨ls, hrd, hmtB⟩, hck, _⟩ := hs.ok p rfl
   have hcurB : s.cursor ≤ sB.cursor := hf.cur
   simp only at hck hrd hcurB hmtB
   have itB : Item sB s.cursor (sB.cursor - s.cursor) := item_of_reads hrd hck (by omega)
